@@ -1,4 +1,5 @@
 import SigModel.Model.Alert
+import SigModel.Model.AlertJob
 import Oracle.Util
 /- suite "alert": alert <window> <interval> <cooldown> <silence> <op> <op> ...
      op ::= e1 | e0   evaluation, condition matched / not matched, webhook reachable
@@ -43,8 +44,64 @@ def alert (args : List String) : String :=
     | _, _, _, _, _ => "bad-op"
   | _ => "bad-op"
 
+/- suite "alertjob": aj <window> <interval> <cooldown> <op> <op> ...     (Model/SigModel.AlertJob.lean)
+     op ::= e1 | e0 | f1 | f0 | t<k>     as above
+          | R            restart: the job is re-created from the row (InitAlertingService)
+          | U<w>/<i>     edit: ProcessUpdateAlertRequest with EvalWindow w, EvalInterval i (i ≥ 1)
+          | S<k>         ProcessSilenceAlertRequest, k minutes        | Q   ProcessUnsilenceAlertRequest
+   → per evaluation  <state>:<notified>:<last notified state>;  per R / accepted U the definition the NEW job
+     object carries `R<w>/<i>` `U<w>/<i>`; refused requests `U!` `S!`; accepted `S` `Q`; then h=<history rows>.
+   The line is bad-op when the creation request would be refused (window < interval) or an interval is 0. -/
+def parseJobOp (s : String) : Option SigModel.AlertJob.Op :=
+  match s with
+  | "e1" => some (.eval true true)
+  | "e0" => some (.eval false true)
+  | "f1" => some (.eval true false)
+  | "f0" => some (.eval false false)
+  | "R" => some .restart
+  | "Q" => some .unsilence
+  | _ =>
+    if s.startsWith "t" then ((s.drop 1).toString.toNat?).map .tick
+    else if s.startsWith "S" then ((s.drop 1).toString.toNat?).map .silence
+    else if s.startsWith "U" then
+      match (s.drop 1).toString.splitOn "/" with
+      | [a, b] =>
+        match a.toNat?, b.toNat? with
+        | some a, some b => if b = 0 then none else some (.edit a b)
+        | _, _ => none
+      | _ => none
+    else none
+
+def alertjob (args : List String) : String :=
+  match args with
+  | w :: i :: c :: ops =>
+    match w.toNat?, i.toNat?, c.toNat?, ops.mapM parseJobOp with
+    | some w, some i, some c, some ops =>
+      if i = 0 || w < i then "bad-op" else
+      let rec go (s : SigModel.AlertJob.World) (ops : List SigModel.AlertJob.Op) (acc : List String) : List String × SigModel.AlertJob.World :=
+        match ops with
+        | [] => (acc.reverse, s)
+        | op :: r =>
+          let (s', o) := SigModel.AlertJob.step s op
+          let tok : Option String :=
+            match op, o with
+            | _, some o => some s!"{showState o.state}:{if o.notified then 1 else 0}:{showState s'.st.lastSentState}"
+            | .restart, _ => some s!"R{s'.job.window}/{s'.job.interval}"
+            | .edit a b, _ => some (if SigModel.AlertJob.editAccepted a b then s!"U{s'.job.window}/{s'.job.interval}" else "U!")
+            | .silence k, _ => some (if SigModel.AlertJob.silenceAccepted k then "S" else "S!")
+            | .unsilence, _ => some "Q"
+            | _, _ => none
+          match tok with
+          | none => go s' r acc
+          | some t => go s' r (t :: acc)
+      let (toks, s) := go (SigModel.AlertJob.create w i c 0) ops []
+      String.intercalate " " (toks ++ [s!"h={s.st.hist.length}"])
+    | _, _, _, _ => "bad-op"
+  | _ => "bad-op"
+
 def handle (cmd : String) (args : List String) : Option String :=
   match cmd with
   | "alert" => some (alert args)
+  | "aj" => some (alertjob args)
   | _ => none
 end Oracle.C20
